@@ -405,9 +405,16 @@ def _file_impl(case):
                     elif kind in ("cal", "calslice"):
                         path, w = payload
                         g, n = path.split("/")
-                        s = getattr(f, ATTR_ACCESS[path]) if case.get("cal_by_attr", True) and path in ATTR_ACCESS else f[g][n]
+                        # every way of reaching the channel lists the same calibration items: by attribute, group by
+                        # group, and by its full HDF5 path
+                        routes = [f[g][n], f[path]] + ([getattr(f, ATTR_ACCESS[path])] if path in ATTR_ACCESS else [])
                         if w is not None:
-                            s = s[w[0] : w[1]]
+                            routes = [r[w[0] : w[1]] for r in routes]
+                        lists = [[int(it["cal_id"]) for it in r.calibration] for r in routes]
+                        if any(l != lists[0] for l in lists):
+                            answers.append(f"calibration-differs-by-access-route chained={lists[0]} path={lists[1]} attr={lists[2] if len(lists) > 2 else '-'}")
+                            continue
+                        s = routes[-1] if case.get("cal_by_attr", True) else routes[0]
                         answers.append(enc_list([int(it["cal_id"]) for it in s.calibration]))
                         # the model numbers items by their position in h5py order; translate ids to positions
                         chname = n
